@@ -120,4 +120,21 @@ PROPS = {
         "trusted_base": COMMON_TB + ["hook fnv1a64::verif_hash_static exposes the const hasher for arbitrary static schemas", "Spec/Fnv.lean transcribes FNV-1a-64 and the tag table documented in key/hash.rs"],
         "assumptions": ["universal key sensitivity is false of any 64-bit hash; proved for single-byte stream changes, sampled beyond (DESIGN §8)"],
     },
+    "C15": {
+        "gens": ["C15"],
+        "rule": "`pun <schema>`: the borrowed form (a leaked &'static tree built by hand, not via From) and its owned conversion are serialised with the real crate, compared with each other (oracle) and with the model's serde-derive encoding; the bytes (+ trailing bytes) are deserialised as OwnedDataModelType and compared with the conversion; `deowned <bytes>`: the owned deserialiser on valid / truncated / corrupted / short arbitrary bytes vs the model's decOwned; every one of the 26 node kinds + 4+4 data kinds is probed each run, plus random trees (depth <= 6, fan-out <= 5, names empty/ASCII/multi-byte); non-trivial = distinct op line",
+        "nontrivial": lambda op, a: True,
+        "diff_is_witness": False,
+        "exhaustive": {"quick": ["all 30 variants of both schema enums"], "thorough": ["same"]},
+        "trusted_base": COMMON_TB + [SERDE_TB, "serde-derive's enum/struct encoding of the two schema families is MODELLED (two separately written variant-index tables)"],
+        "assumptions": [],
+    },
+    "C19": {
+        "gens": ["C19"],
+        "rule": "`fmt <schema>` (to_pseudocode / Display, compared as bytes) and `discover <schema>` (all_used_types as a sorted list) on every node kind incl. usize/isize/schema, array-vs-tuple cases, random trees; oracle: no panic, set contains the schema itself, rendering mentions every declared name; non-trivial = distinct op line",
+        "nontrivial": lambda op, a: True,
+        "diff_is_witness": False,
+        "trusted_base": COMMON_TB + ["HashSet is MODELLED as a duplicate-free list compared after sorting", "String formatting of usize MODELLED as decimal digits"],
+        "assumptions": ["the model mirrors the REPAIRED discover_tys (fix: commit 5cca30a); `discover_panics_iff` characterises the unrepaired code"],
+    },
 }
